@@ -2,6 +2,7 @@ package sim
 
 import (
 	"fmt"
+	"os"
 	"runtime"
 	"strings"
 	"sync"
@@ -25,8 +26,18 @@ var (
 	rwViolation atomic.Pointer[string]
 )
 
+var rwNop = os.Getenv("BSIM_RWNOP") != ""
+
 func rwHook(rw *sync.RWMutex, op int) {
-	if curSim.Load() == nil {
+	if rwNop {
+		return
+	}
+	// not in the concurrent-window runs: the bookkeeping below goes through
+	// shared maps, whose internal synchronisation would give the race
+	// detector happens-before edges between searches that have none (it hid
+	// the race of seeded change C15a); the lock discipline is checked in the
+	// one-release-per-window runs, which execute the same code paths
+	if s := curSim.Load(); s == nil || s.quiet {
 		return
 	}
 	var pcs [1]uintptr
@@ -75,7 +86,11 @@ func rwHook(rw *sync.RWMutex, op int) {
 
 func short(fn string) string { return strings.TrimPrefix(fn, "github.com/blugelabs/bluge/") }
 
-func init() { sync.VerifRWHook = rwHook }
+func init() {
+	if os.Getenv("BSIM_NORW") == "" {
+		sync.VerifRWHook = rwHook
+	}
+}
 
 // resetRWHook forgets the bookkeeping of earlier runs (goroutine ids are not reused within a process, but keep the map small).
 func resetRWHook() {
